@@ -28,11 +28,12 @@ echo "== 2. demo with the change" | tee -a $log
 echo "   exit=$r2 (expected != 0)" | tee -a $log
 echo "== 3. existing suite with the change (demo removed)" | tee -a $log
 git apply -R $src/demo.diff
-( cargo test --workspace --no-fail-fast --offline 2>&1 | grep -E "^test result|FAILED|failed|error(\[|:)" | sort | uniq -c ) >> $log 2>&1
-fails=$(grep -c "FAILED\|error" $log)
+cargo test --workspace --no-fail-fast --offline > /tmp/confirm/$name/suite.log 2>&1; r3=$?
+grep -E "^test result|FAILED|failed|error(\[|:)" /tmp/confirm/$name/suite.log | sort | uniq -c >> $log
+echo "   suite exit=$r3 (expected 0)" | tee -a $log
 tail -15 $log
 ok=0
-if [ $r1 -eq 0 ] && [ $r2 -ne 0 ] && ! grep -q "test result: FAILED\|^ *[0-9]* error" $log; then ok=1; fi
+if [ $r1 -eq 0 ] && [ $r2 -ne 0 ] && [ $r3 -eq 0 ]; then ok=1; fi
 echo "confirmed=$ok" | tee -a $log
 if [ $ok -eq 1 ]; then
   mkdir -p /verif/seeded/$name
